@@ -491,6 +491,10 @@ pub fn const_json<'tcx>(cx: &mut Ctx<'tcx>, c: &Const<'tcx>, typing_env: TypingE
             };
             if let Some(b) = bytes {
                 o = o.str("s", &String::from_utf8_lossy(b));
+                if is_bytes {
+                    let v: Vec<String> = b.iter().map(|c| c.to_string()).collect();
+                    o = o.raw("bytes", &arr(&v));
+                }
                 return o.done();
             }
         }
